@@ -30,5 +30,7 @@ extern void OpenWithStandard(FILE** ppFile, char* Path);
 
 extern void CloseIfOpen(FILE** ppFile);
 
+extern void UnlinkIfRegular(char const* pPath);
+
 extern void stdhandl_init(void);
 #endif /* STDHANDL_H */
